@@ -80,11 +80,21 @@ def printer_rules(ctx):
                     missing.append(fname)
             else:
                 # list: a loop over the binding that prints the element values
-                loops = [n for n in sir.walk(arm["body"]) if n.get("k") == "for" and b is not None and b in sir.expr_str(n["e"])]
-                okl = False
-                for lp in loops:
-                    if any(x.get("k") == "call" and pt._level_arg(x["args"]) for x in sir.walk(lp["body"])):
-                        okl = True
+                # (`for x in b..`, `while let Some(x) = it.next()` over an iterator made from b, `b.iter().for_each(|x| ..)`)
+                import guards as G
+                derived = G.derived_names(arm["body"], b) | {b} if b is not None else set()
+
+                def about_b(e_):
+                    return any(x.get("k") == "path" and len(x["segs"]) == 1 and x["segs"][0] in derived for x in sir.walk(e_))
+                bodies = []
+                for n in sir.walk(arm["body"]):
+                    if n.get("k") == "for" and about_b(n["e"]):
+                        bodies.append(n["body"])
+                    elif n.get("k") == "while" and about_b(n["cond"]):
+                        bodies.append(n["body"])
+                    elif n.get("k") == "mcall" and n["m"] in ("for_each", "try_for_each") and about_b(n["recv"]):
+                        bodies += [a_["body"] for a_ in n["args"] if a_.get("k") == "closure"]
+                okl = any(x.get("k") == "call" and pt._level_arg(x["args"]) for bd in bodies for x in sir.walk(bd))
                 if not okl:
                     missing.append(fname)
         panics = any(sir.is_panic_node(n) for n in sir.walk(arm["body"]))
@@ -190,6 +200,8 @@ def escape_rules(ctx):
                 for x in sir.walk(n["body"]):
                     if x.get("k") == "lit" and x.get("t") == "str":
                         got[n["pat"]["e"]["v"]] = x["v"]
+                    elif x.get("k") == "path" and sir.const_text(x) is not None:
+                        got[n["pat"]["e"]["v"]] = sir.const_text(x)   # a named constant holding the entity text
         p = []
         for ch, rep in repl.items():
             if ch not in chars:
